@@ -16,7 +16,9 @@
     history followed by [OReopen]. *)
 From Coq Require Import ZArith List Bool.
 From CG3 Require Import Lib.PyZ Lib.Chars Model.DataStore Model.SqlStore Spec.DataStoreSpec.
-From CG3 Require Import Proofs.SqlStoreProofs Proofs.DataStoreProofs Proofs.DataStoreNames.
+From CG3 Require Import Proofs.SqlStoreProofs Proofs.DataStoreProofs Proofs.DataStoreNames Proofs.DsNamesEq.
+From CG3 Require Import Lib.PyStr Lib.Val.
+From CG3gen Require Import DsNamesGen.
 Import ListNotations.
 
 (** ---------------------------------------------------------------- directory store *)
@@ -228,3 +230,93 @@ Proof. exact sp_append_never_overwrites. Qed.
 Theorem readonly_never_mutates : forall p s o,
   dm s = MR -> (forall m, o <> AReopen m) -> sp_step p s o = s.
 Proof. exact sp_readonly_never_mutates. Qed.
+
+(** ---------------------------------------------------------------- translator tie
+    gen/DsNamesGen.v is regenerated on every run from the CURRENT text of
+    DataStoreDirectory.__contains__ / _write / drop_not_completed / md5 and of
+    DataStoreSqlite.write / write_not_completed / write_log (harness/translators/ds_names.py).
+    Each generated name computation equals the function of the model the refinement theorems
+    are about - for all strings, or (where the source goes through a regular expression) for
+    every store suffix without a '.'. *)
+
+Theorem gen_contains_key : forall sfx item,
+  DsNamesGen.contains_key sfx item = contains_key repaired sfx item.
+Proof. exact contains_key_eq. Qed.
+
+Theorem gen_write_name : forall self_sfx suffix uid,
+  ~ In ch_dot self_sfx -> DsNamesGen.write_name self_sfx suffix uid = write_name repaired self_sfx suffix uid.
+Proof. exact write_name_eq. Qed.
+
+Theorem gen_md5_write_name : forall suffix fname,
+  ~ In ch_dot suffix -> DsNamesGen.md5_write_name suffix None fname = md5_write_name repaired suffix fname.
+Proof. exact md5_write_name_eq. Qed.
+
+Theorem gen_nc_member_id : forall fname, DsNamesGen.nc_member_id fname = s_nc_prefix ++ fname.
+Proof. exact nc_member_id_eq. Qed.
+
+Theorem gen_drop_pattern : forall sfx uid, DsNamesGen.drop_pattern sfx uid = drop_pattern sfx uid.
+Proof. exact drop_pattern_eq. Qed.
+
+(** one round of the loop of drop_not_completed of the model IS the generated skip test,
+    record file and md5 file *)
+Theorem gen_drop_loop_step : forall pat m rest s,
+  drop_loop repaired pat (m :: rest) s =
+  if DsNamesGen.drop_skip pat m then drop_loop repaired pat rest s
+  else
+    match d_nc s with
+    | None => (s, Some E_IO)
+    | Some ncm =>
+        if fm_mem ncm (DsNamesGen.drop_file m) then
+          let s1 := with_nc s (Some (fm_del ncm (DsNamesGen.drop_file m))) in
+          if fm_mem (d_md5 s1) (DsNamesGen.drop_md5_file m) then
+            let s2 := with_md5 s1 (fm_del (d_md5 s1) (DsNamesGen.drop_md5_file m)) in
+            let (s3, l) := nc_prop s2 in
+            if mem_str m l then drop_loop repaired pat rest (with_ncache s3 (remove_first m l))
+            else (s3, Some E_Value)
+          else (s1, Some E_IO)
+        else (s, Some E_IO)
+    end.
+Proof. exact drop_loop_gen. Qed.
+
+Theorem gen_md5_lookup_name : forall sfx uid,
+  ~ In ch_dot sfx -> DsNamesGen.md5_lookup_name sfx uid = md5_lookup_name sfx uid.
+Proof. exact md5_lookup_name_eq. Qed.
+
+Theorem gen_sq_write_id : forall uid, DsNamesGen.sq_write_id uid = strip_table s_results uid.
+Proof. exact sq_write_id_eq. Qed.
+
+Theorem gen_sq_write_nc_id : forall uid, DsNamesGen.sq_write_nc_id uid = strip_table s_results uid.
+Proof. exact sq_write_nc_id_eq. Qed.
+
+Theorem gen_sq_write_log_id : forall uid, DsNamesGen.sq_write_log_id uid = strip_table s_logs uid.
+Proof. exact sq_write_log_id_eq. Qed.
+
+(** the regular expression  [.]LIT(?=[.]|$)  (scanned left to right, Lib/PyStr.v) replaces
+    exactly the dotted components equal to LIT *)
+Theorem gen_regex_is_component_replacement : forall s lit new,
+  ~ In ch_dot lit -> re_sub_dot_lit_la s lit (ch_dot :: new) = replace_comp s lit new.
+Proof. exact re_sub_is_replace_comp. Qed.
+
+(** on the syntactic class of [dir_refines_dict_plain_ids] the name computations of the current
+    source are canonical: x and x.<suffix> both lead to x.<suffix>, x.json, x.txt *)
+Theorem gen_canonical_names : forall sfx x,
+  plain_sfx sfx = true -> plain_did sfx x = true ->
+  let k := dir_lid sfx x in
+  DsNamesGen.contains_key sfx x = cfile sfx k /\
+  DsNamesGen.write_name sfx sfx x = (cfile sfx k, None) /\
+  DsNamesGen.write_name sfx s_json x = (nfile k, None) /\
+  DsNamesGen.md5_write_name sfx None (cfile sfx k) = mfile k /\
+  DsNamesGen.md5_write_name s_json None (nfile k) = mfile k /\
+  DsNamesGen.nc_member_id (nfile k) = nmem k /\
+  DsNamesGen.drop_pattern sfx x = nfile k /\
+  DsNamesGen.drop_file (nmem k) = nfile k /\
+  DsNamesGen.drop_md5_file (nmem k) = mfile k /\
+  DsNamesGen.md5_lookup_name sfx (cfile sfx k) = mfile k /\
+  DsNamesGen.md5_lookup_name sfx (nmem k) = mfile k.
+Proof. exact gen_canonical. Qed.
+
+(** ... and drop_not_completed(x) skips exactly the members that are not x (no endswith) *)
+Theorem gen_drop_skips_exactly_the_others : forall sfx x y,
+  plain_sfx sfx = true -> plain_str x = true -> plain_str y = true ->
+  DsNamesGen.drop_skip (DsNamesGen.drop_pattern sfx x) (nmem y) = negb (str_eqb y x).
+Proof. exact gen_drop_skip_exact. Qed.
